@@ -133,7 +133,7 @@ def call_cases(draw, policies=ALL_POLICIES, max_tasks=6, max_pools=2, max_worker
             r = draw(st.integers(0, 3))
             if r == 0 and running:
                 run.append({"graph": g["name"], "job": j["name"], "pool": draw(st.integers(0, 2)), "worker": draw(st.integers(0, 2)),
-                            "strategy": draw(st.integers(0, 2)), "elapsed": draw(st.integers(0, 4)), "overrun": draw(st.sampled_from([0, 0, 0, 1, 3]))})
+                            "strategy": draw(st.integers(0, 2)), "elapsed": draw(st.integers(0, 4)), "overrun": draw(st.sampled_from([0, 0, 1, 2, 3, 4]))})
             elif r == 1 and scheduled:
                 sched.append({"graph": g["name"], "job": j["name"], "pool": draw(st.integers(0, 2)), "worker": draw(st.integers(0, 2)),
                               "strategy": draw(st.integers(0, 2)), "at": draw(st.integers(0, 6))})
